@@ -44,6 +44,9 @@ let handle (line : string) : string =
       let ts = List.map (fun t -> parse_path { s = t; i = 0 }) (List.filter (fun x -> x <> "") (String.split_on_char ';' targets)) in
       let d = parse_jv { s = data; i = 0 } in
       string_of_bytes (model_matchdoc ts d)
+  | ["convert"; omit; data] ->
+      let d = parse_sv { s = data; i = 0 } in
+      string_of_bytes (model_convert (omit = "1") d)
   | ["match"; eq; data] ->
       let e = parse_eqn { s = eq; i = 0 } in
       let d = parse_jv { s = data; i = 0 } in
